@@ -132,6 +132,27 @@ def lemmas(idx):
                         n += 1; lem = alg.AlgLemma('rot_%d' % n, vs, lhs, rhs, hyps=list(hy), tactic=alg.cond_tac(), meta={'cfg': cfg, 'key': f['key'], 'file': f['file'], 'fid': f['fid'], 'did': f['did'], 'covers': ['%s:%s' % (cfg, f['key'])], 'fixed': {'order': on}, 'spec': 'to_euler %s, %s branch (Shoemake extraction)' % (on, nm)})
                         seen[key] = lem; order.append(lem)
             except (SymErr, KeyError): continue
+    # ---- extraction: to_axis_angle of the quaternion types, both paths: |v| >= 1e-8 -> (v / |v|, 2 atan2(|v|, w)), else (X, 0)
+    for cfg in CFGS:
+        structs = idx.structs(cfg)
+        for f in idx.fns(cfg):
+            st = f['self']; tn = tname(st) if st is not None else None
+            if tn not in QUAT or f['name'] != 'to_axis_angle' or f['generic'] or f['by_ref'] or not f['pub'] or not f['has_self'] or f['params'] or f['fid'] is None: continue
+            k = 'f32' if tn == 'Quat' else 'f64'
+            eps = ('(lit32 841731191)' if k == 'f32' else '(lit64 4487126258331716666)'); two = '(lit32 1073741824)' if k == 'f32' else '(lit64 4611686018427387904)'
+            try:
+                vs = []; q = sym(structs, st, 'q', vs); x, y, z, w = [l[2] for l in tree_leaves(q)]
+                ln = '(k_un FSqrt (%s * %s + %s * %s + %s * %s)%%K)' % (x, x, y, y, z, z)
+                reg = ['(%s / %s)%%K' % (c, ln) for c in (x, y, z)] + ['(%s * %s)%%K' % (two, at2(ln, w))]
+                for nm, lanes, val in (('|v| >= 1e-8 -> (v / |v|, 2 atan2(|v|, w))', reg, True), ('|v| < 1e-8 -> (X, 0)', ['k1', 'k0', 'k0', 'k0'], False)):
+                    lhs = 'rnorm (run OA tbl 400 %d%%positive [%s])' % (f['fid'], '; '.join(alg.kxargs([tree_coq(q)])))
+                    rt = sym(structs, f['ret'], 'r', []); rhs = 'Ok (%s)' % tree_fill(rt, iter(alg.kxl(lanes))); hy = (alg.cmp_hyp('FGe', ln, eps, val),)
+                    if (cfg, f) not in cover: cover.append((cfg, f))
+                    key = (lhs, rhs, hy)
+                    if key in seen: seen[key].meta['covers'].append('%s:%s' % (cfg, f['key'])); continue
+                    n += 1; lem = alg.AlgLemma('rot_%d' % n, vs, lhs, rhs, hyps=list(hy), tactic=alg.cond_tac(), meta={'cfg': cfg, 'key': f['key'], 'file': f['file'], 'fid': f['fid'], 'did': f['did'], 'covers': ['%s:%s' % (cfg, f['key'])], 'spec': 'to_axis_angle: ' + nm})
+                    seen[key] = lem; order.append(lem)
+            except (SymErr, KeyError): continue
     files = {}; nfiles = max(1, (len(order) + 7) // 8)
     for i, lem in enumerate(order): files.setdefault('Rot_%03d' % (i % nfiles), []).append(lem)
     notes['covered_functions'] = len(cover); notes['distinct_statements'] = n; notes['untranslated_count'] = len(notes['untranslated'])
